@@ -309,7 +309,7 @@ Definition mon15 (tr : list xl) (o : obs) : bool :=
 
 Definition mon10 (tr : list xl) (o : obs) : bool :=
   let sm := summarize tr in
-  negb (o_panic o) && negb (m_bad sm) && implb (o_complete o) (complete_recv sm && (m_lastgor sm =? 0)%Z).
+  negb (o_panic o) && negb (o_blocked o) && negb (m_bad sm) && implb (o_complete o) (complete_recv sm && (m_lastgor sm =? 0)%Z).
 
 Definition verdict_with (mon : list xl -> obs -> bool) (c : case) : nat :=
   match c with
